@@ -27,7 +27,15 @@ Correspondence / exploration on the real code:
     of the `except RecursionError` guard in the AST);
   * encoding (schema.encode / to_etree on decoded and mutated data, 9 converters, 3 modes), schema-level APIs with
     randomised options (path, max_depth, hooks, fillers, converter, flags, lazy), and a list / union / nillable family
-    (blank, whitespace-only, duplicated siblings × 9 converters × 3 modes × option sets).
+    (blank, whitespace-only, duplicated siblings × 9 converters × 3 modes × option sets);
+  * wildcards: element and attribute wildcards of every constraint form (##any, ##other, ##local, ##targetNamespace, URI
+    lists, the EMPTY list, 1.1 notNamespace / notQName / ##defined / ##definedSibling) × processContents × position
+    (first / middle / last / only / in a choice / in a repeated inner sequence) × occurrence, with documents whose content
+    model fails AT the wildcard; every form is driven once exhaustively (strict, last, required), the product by draws;
+  * error objects: every error collected or raised by the fuzzed entry points is RENDERED completely (str / repr, every
+    property and public zero-argument method of the classes of its MRO, its attributes, its pickle state): an exception
+    while an error is built or rendered is a foreign exception; the table of the computed members of the error classes is
+    read from the AST of the exception modules and reported with the members rendered on the run.
 Property evaluation: no foreign exception ever; lax / skip entry points return for every well-formed document
 within the limits; documents over a limit are refused with XMLResourceExceeded, documents within are processed.
 """
@@ -951,13 +959,16 @@ STATE_MON: dict[str, Any] = {'mon': None, 'obs': None}
 
 def where(e: BaseException) -> list[str]:
     """innermost frames of the traceback that lie in the package under check (file:line function)"""
-    import traceback
-    tb = traceback.extract_tb(e.__traceback__)
-    fr = [f for f in tb if 'xmlschema' in f.filename]
-    out = ['%s:%d %s' % (f.filename.split('xmlschema/', 1)[-1], f.lineno, f.name) for f in fr[-4:]]
-    if tb:
+    frames: list[tuple[str, int, str]] = []
+    tb = e.__traceback__
+    while tb is not None:          # (no source lines read: traceback.extract_tb costs a file look-up per frame)
+        frames.append((tb.tb_frame.f_code.co_filename, tb.tb_lineno, tb.tb_frame.f_code.co_name))
+        tb = tb.tb_next
+    fr = [f for f in frames if 'xmlschema' in f[0]]
+    out = ['%s:%d %s' % (f[0].split('xmlschema/', 1)[-1], f[1], f[2]) for f in fr[-4:]]
+    if frames:
         # innermost frame overall (may lie outside the package), marked with '@'
-        out.append('@%s %s' % ('/'.join(tb[-1].filename.split('/')[-2:]), tb[-1].name))
+        out.append('@%s %s' % ('/'.join(frames[-1][0].split('/')[-2:]), frames[-1][2]))
     return out
 
 
@@ -1330,20 +1341,104 @@ def doc_depth(data: bytes) -> Optional[int]:
     return m
 
 
+# ------------------------------------------------------------------------------------------------
+# error objects: an exception raised while an error is BUILT or RENDERED is as foreign as one raised by the validator
+
+RENDERED: dict[tuple[str, str], int] = {}
+
+
+def error_property_table() -> dict[str, list[str]]:
+    """Computed properties and public zero-argument methods of every error class, from the AST of the exception modules
+    of the tree under check (the counterpart of the raise-site table for the error objects)."""
+    out: dict[str, list[str]] = {}
+    for rel in ('xmlschema/exceptions.py', 'xmlschema/validators/exceptions.py'):
+        tree = ast.parse((REPO / rel).read_text(encoding='utf-8-sig'))
+        for n in tree.body:
+            if isinstance(n, ast.ClassDef):
+                names = []
+                for m in n.body:
+                    if isinstance(m, ast.FunctionDef) and not m.name.startswith('_'):
+                        is_prop = any(getattr(d, 'id', getattr(d, 'attr', '')) in ('property', 'cached_property') for d in m.decorator_list)
+                        required = len(m.args.args) - 1 - len(m.args.defaults)
+                        if is_prop or (required == 0 and not m.decorator_list):
+                            names.append(m.name)
+                    elif isinstance(m, ast.FunctionDef) and m.name in ('__str__', '__repr__', '__reduce__', '__getstate__'):
+                        names.append(m.name)
+                out[n.name] = sorted(set(names))
+    return out
+
+
+def render_error(e: Any) -> None:
+    """Evaluates everything an error object computes: str / repr, every property and public zero-argument method of
+    every class of its MRO that the package defines, the instance attributes, a pickle round of its state."""
+    cname = type(e).__name__
+    str(e)
+    repr(e)
+    for klass in type(e).__mro__:
+        if not klass.__module__.startswith('xmlschema'):
+            continue
+        for name, attr in vars(klass).items():
+            if name.startswith('_'):
+                continue
+            if isinstance(attr, property):
+                getattr(e, name)
+            elif callable(attr) and not isinstance(attr, (staticmethod, classmethod)):
+                try:
+                    import inspect
+                    sig = inspect.signature(attr)
+                    req = [q for q in list(sig.parameters.values())[1:] if q.default is q.empty and q.kind in (q.POSITIONAL_ONLY, q.POSITIONAL_OR_KEYWORD)]
+                except (TypeError, ValueError):
+                    continue
+                if req:
+                    continue
+                getattr(e, name)()
+            else:
+                continue
+            RENDERED[(klass.__name__, name)] = RENDERED.get((klass.__name__, name), 0) + 1
+    for name in ('msg', 'message', 'reason', 'path', 'obj', 'elem', 'source', 'namespaces', 'validator', 'stack_trace', 'index', 'particle',
+                 'occurs', 'expected', 'invalid_tag', 'decoder', 'encoder'):
+        getattr(e, name, None)
+    if hasattr(e, '__getstate__'):
+        e.__getstate__()
+    RENDERED[(cname, '__str__')] = RENDERED.get((cname, '__str__'), 0) + 1
+
+
+def render_all(errors: Any) -> None:
+    errors = [x for x in errors if isinstance(x, Exception)] if errors else []
+    for e in (errors if len(errors) <= 12 else errors[:9] + errors[-3:]):
+        render_error(e)
+
+
+def _strict_render(fn: Callable[[], Any]) -> Any:
+    """a strict call: the validation error it raises is rendered before it is passed on"""
+    import xmlschema
+    try:
+        return fn()
+    except xmlschema.XMLSchemaValidationError as e:
+        render_error(e)
+        raise
+
+
+def _lax_render(r: Any) -> None:
+    if isinstance(r, tuple) and len(r) == 2 and isinstance(r[1], list):
+        render_all(r[1])
+
+
 def fuzz_entry_points(schema: Any) -> list[tuple[str, str, Callable[[bytes], Any]]]:
     import xmlschema
     cls = type(schema)
     return [
         ('XMLResource', 'n/a', lambda d: xmlschema.XMLResource(d) and None),
         ('is_valid', 'lax', lambda d: schema.is_valid(d)),
-        ('iter_errors', 'lax', lambda d: list(schema.iter_errors(d)) and None),
-        ('validate', 'strict', lambda d: schema.validate(d)),
-        ('decode:strict', 'strict', lambda d: schema.decode(d) and None),
-        ('decode:lax', 'lax', lambda d: schema.decode(d, validation='lax') and None),
+        ('iter_errors', 'lax', lambda d: render_all(list(schema.iter_errors(d)))),
+        ('validate', 'strict', lambda d: _strict_render(lambda: schema.validate(d))),
+        ('decode:strict', 'strict', lambda d: _strict_render(lambda: schema.decode(d)) and None),
+        ('decode:lax', 'lax', lambda d: _lax_render(schema.decode(d, validation='lax'))),
         ('decode:skip', 'skip', lambda d: schema.decode(d, validation='skip') and None),
         ('pkg.to_dict:lax', 'lax', lambda d: xmlschema.to_dict(d, schema, cls=cls, validation='lax') and None),
         ('lazy.is_valid', 'lax', lambda d: schema.is_valid(xmlschema.XMLResource(d, lazy=True))),
         ('lazy.decode:lax', 'lax', lambda d: schema.decode(xmlschema.XMLResource(d, lazy=True), validation='lax') and None),
+        ('lazy.iter_errors', 'lax', lambda d: render_all(list(schema.iter_errors(xmlschema.XMLResource(d, lazy=True))))),
         # defusing applied to the raw source (the scan of sax.py runs before the parser) and location hints followed
         ('XMLResource:defuse', 'n/a', lambda d: xmlschema.XMLResource(d, defuse='always') and None),
         ('XMLResource:defuse-lazy', 'n/a', lambda d: xmlschema.XMLResource(d, defuse='always', lazy=True) and None),
@@ -2106,7 +2201,7 @@ def lists_part(ctx: Ctx) -> None:
             # every converter: all three modes with two option sets (one fixed, one drawn), so that each
             # (converter, mode, keep_empty) combination is driven on every document
             for mode in ('lax', 'skip', 'strict'):
-                for opts in ({'keep_empty': True}, rng.choice(optsets)):
+                for opts in (({'keep_empty': True}, rng.choice(optsets)) if mode == 'lax' else (rng.choice(({'keep_empty': True}, {})),)):
                     fn = lambda: schema.decode(data, converter=conv, validation=mode, **opts)   # noqa
                     if mon is not None and mon.ok:
                         o, fired = mon.watch(fn)
@@ -2128,6 +2223,95 @@ def lists_part(ctx: Ctx) -> None:
                                case, {'exc': o['exc'], 'msg': o['msg'], 'entry': 'decode:' + cname, 'mode': mode, 'where': o.get('where'),
                                       'options': case['options']})
         ctx.case({'schema': 'lists', 'mutation': 'lists', 'xml': xml}, any(x != 'verdict' for x in outcomes), tag='lists')
+
+
+# ------------------------------------------------------------------------------------------------
+# element AND attribute wildcards of every constraint form × processContents × position × occurrence, with documents
+# whose content model fails AT the wildcard (missing child, repeated / unexpected child, child of an excluded namespace)
+
+WILD_NS_10 = ['##any', '##other', '##local', '##targetNamespace', 'urn:x', 'urn:x urn:y', '', '##local ##targetNamespace', 'urn:x ##local']
+WILD_NS_11 = [('notNamespace', 'urn:x ##targetNamespace'), ('notNamespace', '##local'), ('notNamespace', 'urn:x'),
+              ('notQName', '##defined'), ('notQName', '##definedSibling'), ('notQName', 't:g x:e'),
+              ('namespace+notQName', '##other|x:e'), ('notNamespace+notQName', 'urn:y|##defined')]
+
+
+def wild_attrs(form: Any) -> str:
+    if isinstance(form, str):
+        return 'namespace="%s"' % form
+    kind, val = form
+    if '+' in kind:
+        a, b = kind.split('+')
+        va, vb = val.split('|')
+        return '%s="%s" %s="%s"' % (a, va, b, vb)
+    return '%s="%s"' % (kind, val)
+
+
+def wild_xsd(params: dict) -> str:
+    form = params['form'] if isinstance(params['form'], str) else tuple(params['form'])
+    aform = params['aform'] if isinstance(params['aform'], str) else tuple(params['aform'])
+    occ = {'optional': 'minOccurs="0"', 'required': '', 'repeated': 'minOccurs="1" maxOccurs="3"', 'many0': 'minOccurs="0" maxOccurs="unbounded"'}[params['occurs']]
+    w = '<xs:any %s processContents="%s" %s/>' % (wild_attrs(form), params['pc'], occ)
+    a = '<xs:element name="a" type="xs:string"/>'
+    b = '<xs:element name="b" type="xs:int" minOccurs="0"/>'
+    body = {'last': a + w, 'first': w + a, 'middle': a + w + '<xs:element name="b" type="xs:int"/>', 'only': w,
+            'choice': '<xs:choice maxOccurs="2">' + a + w + '</xs:choice>', 'nested': a + '<xs:sequence minOccurs="0" maxOccurs="2">' + w + b + '</xs:sequence>'}[params['pos']]
+    return ('<xs:schema xmlns:xs="http://www.w3.org/2001/XMLSchema" targetNamespace="urn:t" xmlns:t="urn:t" xmlns:x="urn:x" '
+            'elementFormDefault="qualified"><xs:element name="g" type="xs:int"/><xs:attribute name="ga" type="xs:int"/>'
+            '<xs:element name="r"><xs:complexType><xs:sequence>%s</xs:sequence>'
+            '<xs:attribute name="k" type="xs:int"/><xs:anyAttribute %s processContents="%s"/></xs:complexType></xs:element></xs:schema>'
+            % (body, wild_attrs(aform), params['apc']))
+
+
+WILD_CHILDREN = {'a': '<a>1</a>', 'b': '<b>2</b>', 'bx': '<b>x</b>', 'g': '<g>3</g>', 'gx': '<g>x</g>', 'x': '<x:e xmlns:x="urn:x">v</x:e>',
+                 'y': '<y:e xmlns:y="urn:y"/>', 'l': '<l xmlns="">loc</l>', 'u': '<u/>'}
+WILD_DOCS = [[], ['a'], ['a', 'a'], ['a', 'x'], ['x', 'a'], ['a', 'x', 'b'], ['a', 'b'], ['a', 'x', 'x', 'x', 'x'], ['a', 'l'], ['a', 'g'],
+             ['a', 'gx'], ['a', 'y', 'b'], ['b'], ['x'], ['a', 'u'], ['a', 'l', 'bx'], ['g', 'a'], ['a', 'y', 'y']]
+WILD_ATTRS = ['', ' x:p="1" xmlns:x="urn:x"', ' p="1"', ' t:ga="7" xmlns:t="urn:t"', ' t:ga="x" xmlns:t="urn:t"', ' k="x" y:q="" xmlns:y="urn:y"']
+
+
+def wild_schema(params: dict) -> Any:
+    import xmlschema
+    return (xmlschema.XMLSchema11 if params['v'] == '1.1' else xmlschema.XMLSchema10)(wild_xsd(params))
+
+
+def wildcards_part(ctx: Ctx) -> None:
+    import xmlschema
+    rng = ctx.rng
+    seen: dict = {}
+    eps_names = ('is_valid', 'iter_errors', 'validate', 'decode:strict', 'decode:lax', 'decode:skip', 'lazy.iter_errors', 'lazy.decode:lax')
+    combos: list[dict] = []
+    # every constraint form once with processContents strict at the last position, required (the model fails AT the wildcard) …
+    for v, forms in (('1.0', WILD_NS_10), ('1.1', WILD_NS_10 + WILD_NS_11)):
+        for form in forms:
+            combos.append({'v': v, 'form': form, 'pc': 'strict', 'pos': 'last', 'occurs': 'required', 'aform': form if isinstance(form, str) or 'Sibling' not in form[1] else '##any', 'apc': 'strict'})
+    # … and random draws over the whole product
+    for _ in range(ctx.pick(45, 600)):
+        v = rng.choice(['1.0', '1.1'])
+        forms = WILD_NS_10 + (WILD_NS_11 if v == '1.1' else [])
+        aforms = [f for f in forms if isinstance(f, str) or 'Sibling' not in f[1]]
+        combos.append({'v': v, 'form': rng.choice(forms), 'pc': rng.choice(['strict', 'lax', 'skip']),
+                       'pos': rng.choice(['last', 'first', 'middle', 'only', 'choice', 'nested']),
+                       'occurs': rng.choice(['optional', 'required', 'repeated', 'many0']), 'aform': rng.choice(aforms),
+                       'apc': rng.choice(['strict', 'lax', 'skip'])})
+    built = 0
+    for params in combos:
+        o = call(lambda: wild_schema(params))
+        ctx.count('wild-schema:%s' % (o.get('exc') or 'built'))
+        if o['class'] == 'foreign':
+            # (schema construction is not the subject of C11 — counted only)
+            continue
+        if o['class'] != 'verdict':
+            continue               # not a schema (UPA violation …): nothing to validate against
+        schema = wild_schema(params)
+        built += 1
+        sname = 'wild:' + json.dumps(params, sort_keys=True)
+        eps = [e for e in fuzz_entry_points(schema) if e[0] in eps_names]
+        docs = WILD_DOCS if params['pc'] == 'strict' and params['pos'] == 'last' and params['occurs'] == 'required' else \
+            rng.sample(WILD_DOCS, ctx.pick(6, 12))
+        for kids in docs:
+            xml = '<r xmlns="urn:t"%s>%s</r>' % (rng.choice(WILD_ATTRS), ''.join(WILD_CHILDREN[k] for k in kids))
+            fuzz_case(ctx, schema, sname, xml.encode(), 'wildcard', seen, entry_points=eps)
+    ctx.extra['wildcards'] = {'schemas_built': built, 'combinations': len(combos)}
 
 
 def policy_part(ctx: Ctx, drv: Optional[Driver], obs: Optional[PolicyObs]) -> None:
@@ -2219,10 +2403,17 @@ def run(ctx: Ctx, driver_ok: bool) -> None:
             encode_part(ctx)
             options_part(ctx)
             lists_part(ctx)
+            wildcards_part(ctx)
         finally:
             STATE_MON['mon'] = STATE_MON['obs'] = None
     policy_part(ctx, drv, obs)
     descent_part(ctx, drv)
+    table = error_property_table()
+    rendered = sorted({'%s.%s' % k for k in RENDERED})
+    ctx.extra['error_objects'] = {'classes_with_computed_members': {k: v for k, v in table.items() if v},
+                                  'rendered_members': rendered, 'errors_rendered': sum(v for k, v in RENDERED.items() if k[1] == '__str__'),
+                                  'never_rendered_on_this_run': sorted('%s.%s' % (c, m) for c, ms in table.items() for m in ms
+                                                                       if not m.startswith('__') and '%s.%s' % (c, m) not in rendered)}
 
 
 def search(ctx: Ctx) -> None:
@@ -2300,6 +2491,8 @@ def replay(ctx: Ctx, obj: dict) -> int:
         if sname.startswith('corpus:'):
             d = dict((n, x) for n, x, _ in corpus_docs())
             schema = xmlschema.XMLSchema10(str(d[sname.split(':', 1)[1]]))
+        elif sname.startswith('wild:'):
+            schema = wild_schema(json.loads(sname[5:]))
         elif sname.startswith('recursive'):
             schema = xmlschema.XMLSchema10(RECURSIVE_XSD)
             State.d0 = measure_d0(schema)
